@@ -6,10 +6,53 @@ use crate::mem::{tick, Hot, Mem};
 use crate::rng::{mix, Rng};
 use crate::scen::rid_num;
 use crate::{Args, Report};
-use assets_manager::{AssetCache, AssetReadGuard};
+use assets_manager::loader::Loader;
+use assets_manager::{Asset, AssetCache, AssetReadGuard, BoxedError};
+use std::borrow::Cow;
 use serde_json::json;
 use std::sync::atomic::{AtomicBool, AtomicU64, Ordering::SeqCst};
 use std::sync::Mutex;
+
+/// A multi-word `Copy` asset (all words equal) for `Handle::copied`.
+#[derive(Clone, Copy)]
+struct Wide([u64; 64]);
+
+impl Wide {
+    fn check(&self) -> Result<u64, String> {
+        match self.0.iter().position(|w| *w != self.0[0]) {
+            None => Ok(self.0[0]),
+            Some(i) => Err(format!("word {i} = {} but word 0 = {}", self.0[i], self.0[0])),
+        }
+    }
+}
+
+/// An asset no larger than a machine word.
+#[derive(Clone, Copy, PartialEq, Eq, Debug)]
+struct Small(u32);
+
+fn parse_gen(content: &[u8]) -> Result<u64, BoxedError> {
+    Ok(std::str::from_utf8(content)?.trim().parse::<u64>()?)
+}
+
+struct WideLoader;
+impl Loader<Wide> for WideLoader {
+    fn load(content: Cow<[u8]>, _ext: &str) -> Result<Wide, BoxedError> {
+        Ok(Wide([parse_gen(&content)?; 64]))
+    }
+}
+impl Asset for Wide {
+    const EXTENSION: &'static str = "wide";
+    type Loader = WideLoader;
+}
+impl Loader<Small> for WideLoader {
+    fn load(content: Cow<[u8]>, _ext: &str) -> Result<Small, BoxedError> {
+        Ok(Small(parse_gen(&content)? as u32))
+    }
+}
+impl Asset for Small {
+    const EXTENSION: &'static str = "small";
+    type Loader = WideLoader;
+}
 
 #[derive(Default)]
 struct ReaderStats {
@@ -19,15 +62,21 @@ struct ReaderStats {
     errors: Vec<String>,
 }
 
+const STYLES: usize = 7;
+
 /// Part A: readers against a stream of reloads in enhanced mode.
 fn enhanced(rep: &mut Report, rng: &mut Rng, round: usize, readers: usize, reloads: u64) {
     let mem = Mem::new("c07a", Hot::Yes);
     mem.set_logging(false);
     mem.write("b", "big", b"0");
     mem.write("n", "n0", b"load B b");
+    mem.write("b", "wide", b"0");
+    mem.write("b", "small", b"0");
     let cache: &'static AssetCache<Mem> = Box::leak(Box::new(AssetCache::with_source(mem.clone())));
     cache.enhance_hot_reloading();
     let h = cache.load::<Big>("b").expect("load big");
+    let hw = cache.load::<Wide>("b").expect("load wide");
+    let hs = cache.load::<Small>("b").expect("load small");
     let hn = cache.load::<Node<0>>("n").expect("load node");
     let stop = AtomicBool::new(false);
     let stats: Vec<Mutex<ReaderStats>> = (0..readers).map(|_| Mutex::new(ReaderStats::default())).collect();
@@ -36,7 +85,7 @@ fn enhanced(rep: &mut Report, rng: &mut Rng, round: usize, readers: usize, reloa
     std::thread::scope(|s| {
         for r in 0..readers {
             let (stop, stats) = (&stop, &stats);
-            let style = r % 5;
+            let style = (r + round) % STYLES;
             let mut lr = rng.sub(r as u64 + 100 * round as u64);
             s.spawn(move || {
                 let mut st = ReaderStats::default();
@@ -133,6 +182,71 @@ fn enhanced(rep: &mut Report, rng: &mut Rng, round: usize, readers: usize, reloa
                                 Err(_) => fail(&mut st, "untyped guard did not downcast to the stored type".into()),
                             }
                         }
+                        // copies of a multi-word Copy value: `copied` / `cloned` never see a mixture
+                        5 => {
+                            let w = if st.reads % 2 == 0 { hw.copied() } else { hw.cloned() };
+                            match w.check() {
+                                Ok(g) => {
+                                    if g < last_gen {
+                                        fail(&mut st, format!("generation went back: {last_gen} -> {g}"));
+                                    }
+                                    if g != last_gen {
+                                        st.transitions += 1;
+                                    }
+                                    last_gen = g;
+                                }
+                                Err(e) => fail(&mut st, format!("torn value from copied()/cloned(): {e}")),
+                            }
+                        }
+                        // a guard on a value no larger than a machine word pins value and reload id too
+                        6 => {
+                            // one guard per iteration (a second read lock on the same thread could
+                            // deadlock behind a waiting writer): plain or mapped
+                            let mapped = st.reads % 2 == 0;
+                            let rid0;
+                            let v0;
+                            let mut changed = None;
+                            if mapped {
+                                let gm = AssetReadGuard::map(hs.read(), |s: &Small| &s.0);
+                                rid0 = rid_num(hs.last_reload_id());
+                                v0 = Small(*gm);
+                                for _ in 0..lr.range(1, 8) {
+                                    std::thread::yield_now();
+                                    crate::util::spin(lr.below(200) as u64);
+                                    let rid = rid_num(hs.last_reload_id());
+                                    if Small(*gm) != v0 || rid != rid0 {
+                                        changed = Some((Small(*gm), rid));
+                                        break;
+                                    }
+                                }
+                            } else {
+                                let g = hs.read();
+                                rid0 = rid_num(hs.last_reload_id());
+                                v0 = *g;
+                                for _ in 0..lr.range(1, 8) {
+                                    std::thread::yield_now();
+                                    crate::util::spin(lr.below(200) as u64);
+                                    let rid = rid_num(hs.last_reload_id());
+                                    if *g != v0 || rid != rid0 {
+                                        changed = Some((*g, rid));
+                                        break;
+                                    }
+                                }
+                            }
+                            if let Some((now, rid)) = changed {
+                                fail(&mut st, format!("value or reload id changed while a guard was alive (word-sized value): {v0:?}->{now:?}, id {rid0}->{rid}"));
+                            }
+                            st.guard_holds += 1;
+                            if (v0.0 as u64) < last_gen {
+                                fail(&mut st, format!("generation went back: {last_gen} -> {}", v0.0));
+                            }
+                            if v0.0 as u64 != last_gen {
+                                st.transitions += 1;
+                            }
+                            last_gen = v0.0 as u64;
+                            // leave the writer a chance
+                            std::thread::yield_now();
+                        }
                         // a compound holding a snapshot of the big value
                         _ => {
                             let g = hn.read();
@@ -160,7 +274,11 @@ fn enhanced(rep: &mut Report, rng: &mut Rng, round: usize, readers: usize, reloa
         // the stream of reloads
         for g in 1..=reloads {
             mem.write("b", "big", g.to_string().as_bytes());
+            mem.write("b", "wide", g.to_string().as_bytes());
+            mem.write("b", "small", g.to_string().as_bytes());
             mem.notify_file("b", "big");
+            mem.notify_file("b", "wide");
+            mem.notify_file("b", "small");
             if g % 8 == 0 {
                 let sent = mem.sent();
                 let _ = crate::util::wait_until(120_000, || cache.verif_events_handled().is_some_and(|n| n >= sent));
@@ -196,7 +314,7 @@ fn enhanced(rep: &mut Report, rng: &mut Rng, round: usize, readers: usize, reloa
             } else {
                 "C07/reader-error"
             };
-            rep.violation("reader", sig, json!({"reader": i, "style": i % 5, "what": e}), scen.clone());
+            rep.violation("reader", sig, json!({"reader": i, "style": (i + round) % STYLES, "what": e}), scen.clone());
         }
     }
     rep.count("reads_that_saw_a_new_generation", transitions);
@@ -341,7 +459,7 @@ pub fn run(args: &Args) -> Report {
     let rounds = if miri { 1 } else { args.n(8, 60) };
     for round in 0..rounds {
         rep.eval();
-        let readers = if miri { 2 } else { rng.range(1, 12) };
+        let readers = if miri { 2 + round % 2 } else { rng.range(1, 12) };
         let reloads = if miri { 3 } else { args.n(300, 3000) as u64 };
         enhanced(&mut rep, &mut rng, round, readers, reloads);
     }
